@@ -34,19 +34,29 @@ def main():
         results = list(ex.map(one, dirs))
     lines = ['| seed | property | what it needs to manifest (author\'s words, abridged) | demo clean / patched | verdict of the owning check (quick) | clauses |',
              '|---|---|---|---|---|---|']
-    missed = 0
+    # the evaluated seeds get their meta.json updated; the table is then written from the meta.json files of ALL seeds
     for name, e in results:
-        d = os.path.join(ROOT, 'seeded', name)
-        mp = os.path.join(d, 'meta.json')
+        mp = os.path.join(ROOT, 'seeded', name, 'meta.json')
         meta = json.load(open(mp)) if os.path.exists(mp) else {}
         meta['final_evaluation'] = e.get('checks')
+        meta['final_demo'] = [e.get('demo_clean_rc'), e.get('demo_patched_rc')]
         json.dump(meta, open(mp, 'w'), indent=1)
+    missed = 0
+    alld = sorted((d for d in glob.glob(os.path.join(ROOT, 'seeded', 'C*-*')) if os.path.isdir(d)),
+                  key=lambda p: (os.path.basename(p).split('-')[0], int(os.path.basename(p).split('-')[1])))
+    for d in alld:
+        name = os.path.basename(d)
+        mp = os.path.join(d, 'meta.json')
+        meta = json.load(open(mp)) if os.path.exists(mp) else {}
+        ch = meta.get('final_evaluation') or {}
+        dm = meta.get('final_demo') or [meta.get('confirmed', {}).get('demo_exit_clean_tree'), meta.get('confirmed', {}).get('demo_exit_with_patch')]
         need = ' '.join(open(os.path.join(d, 'meta.txt')).read().split())[:260] if os.path.exists(os.path.join(d, 'meta.txt')) else ''
-        ver = '; '.join('%s: %s' % (k, v['verdict']) for k, v in e.get('checks', {}).items())
-        cl = '; '.join(', '.join(v['clauses'][:4]) for v in e.get('checks', {}).values())
+        ver = '; '.join('%s: %s' % (k, v['verdict']) for k, v in ch.items())
+        cl = '; '.join(', '.join(v['clauses'][:4]) for v in ch.values())
         if 'caught' not in ver:
             missed += 1
-        lines.append('| %s | %s | %s | %s / %s | %s | %s |' % (name, name.split('-')[0], need.replace('|', '/'), e.get('demo_clean_rc'), e.get('demo_patched_rc'), ver, cl))
+        lines.append('| %s | %s | %s | %s / %s | %s | %s |' % (name, name.split('-')[0], need.replace('|', '/'), dm[0], dm[1], ver, cl))
+    results = [(os.path.basename(d), None) for d in alld]
     open(os.path.join(ROOT, 'seeded', 'RESULTS.md'), 'w').write(
         '# Independently seeded changes and the checks that catch them\n\n' + '\n'.join(lines) + '\n\n%d seeds, %d not caught\n' % (len(results), missed))
     print('%d seeds, %d not caught' % (len(results), missed))
